@@ -300,8 +300,12 @@ namespace BitSerializer::Convert::Detail
 			{
 				if (buf != end && (std::isdigit(*buf) || isYear))
 				{
-					if (isYear && *buf == '+') {
-						++buf;
+					if (isYear && *buf == '+')
+					{
+						// Only digits can follow the explicit plus sign ("+-2024" is not a year)
+						if (++buf == end || !std::isdigit(*buf)) {
+							throw std::invalid_argument("Input string is not a valid ISO datetime: YYYY-MM-DDThh:mm:ss[.SSS]Z");
+						}
 					}
 					const std::from_chars_result result = std::from_chars(buf, end, outValue);
 					if (result.ec == std::errc())
